@@ -191,27 +191,34 @@ func tail(s string, n int) string {
 }
 
 // liveServers reads the servers of the (mutated) configuration tree.
-func liveServers(tree interface{}, loc *localised) []liveServer {
+func liveServers(tree interface{}, _ *localised) []liveServer {
 	var out []liveServer
-	for _, s := range loc.Servers {
-		v, ok := treeGet(tree, s.Path)
+	groups, _ := treeGet(tree, cfgPath{key("server_groups")})
+	gl, _ := groups.([]interface{})
+	for _, g := range gl {
+		gm, ok := g.(yaml.MapSlice)
 		if !ok {
 			continue
 		}
-		m, ok := v.(yaml.MapSlice)
-		if !ok {
-			continue
-		}
-		p, _ := mapGet(m, "protocol")
-		ls := liveServer{Name: s.Name, Proto: fmt.Sprint(p)}
-		if ba, has := mapGet(m, "bind_addresses"); has {
-			if l, isList := ba.([]interface{}); isList {
-				for _, a := range l {
-					ls.Addrs = append(ls.Addrs, fmt.Sprint(a))
+		srvs, _ := mapGet(gm, "servers")
+		sl, _ := srvs.([]interface{})
+		for _, sv := range sl {
+			m, isMap := sv.(yaml.MapSlice)
+			if !isMap {
+				continue
+			}
+			n, _ := mapGet(m, "name")
+			p, _ := mapGet(m, "protocol")
+			ls := liveServer{Name: fmt.Sprint(n), Proto: fmt.Sprint(p)}
+			if ba, has := mapGet(m, "bind_addresses"); has {
+				if l, isList := ba.([]interface{}); isList {
+					for _, a := range l {
+						ls.Addrs = append(ls.Addrs, fmt.Sprint(a))
+					}
 				}
 			}
+			out = append(out, ls)
 		}
-		out = append(out, ls)
 	}
 	return out
 }
@@ -310,7 +317,7 @@ func (h *harness) attempt(ms []mutation, tag string) (obs *observation, collided
 		obs.Verdict, obs.Class, obs.What = "ambiguous", "localise", err.Error()
 		return obs, false
 	}
-	tree := applyMutations(loc.Tree, ms)
+	tree := applyMutations(loc.Tree, ms, base+loc.PortsUsed)
 	cfg, err := yaml.Marshal(tree)
 	if err != nil {
 		obs.Verdict, obs.Class, obs.What = "ambiguous", "marshal", err.Error()
@@ -496,6 +503,7 @@ var participants = map[string][]string{
 	"id":              {"filtering_group"},
 	"ids":             {"rule_lists", "filter list id"},
 	"protocol":        {"dnscrypt", "tls", "bind_interfaces"},
+	"server_groups":   {"tls", "servers", "dnscrypt"},
 }
 
 // namesProperty reports whether the rejection message identifies one of the
@@ -688,6 +696,11 @@ func witness(c caseSpec, first, second *observation) map[string]interface{} {
 		"config_diff":   muts,
 		"confirmed_run": second,
 	}
+	for _, m := range c.Muts {
+		if m.Kind == "struct" {
+			w["config_under_test"] = first.Config
+		}
+	}
 	return w
 }
 
@@ -772,6 +785,10 @@ func (h *harness) account(cr caseResult, found *findings) (class string) {
 	r.Bucket("queries_sent", int64(obs.Queries))
 	r.Bucket("queries_answered", int64(obs.Answered))
 	r.Bucket("effective_size_probes_applied", int64(len(obs.Probes)))
+	if c.Stream == "structural" && obs.Verdict != "ambiguous" {
+		r.Bucket("structural_cases_decided", 1)
+		r.Bucket("structural:"+obs.Verdict, 1)
+	}
 	if (c.Stream == "enum-spelling" || c.Stream == "enum-dependent") && obs.Verdict != "ambiguous" {
 		r.Bucket("enum_spelling_cases_decided", 1)
 	}
@@ -926,6 +943,7 @@ func TestCheck(t *testing.T) {
 	}
 	fields, skipped := catalogue(h.baseLoc.Tree)
 	spellFs := enumSpellingFields(fields)
+	spellFs = append(spellFs, structuralFields(h.baseLoc.Tree)...) // for C20_ONLY / replay look-up
 	sectionFs := sectionFields(h.baseLoc.Tree)
 	r.Bucket("sections_removed_or_nulled", int64(len(sectionFs)))
 	r.Extra("numeric_scalars_not_mutated", skipped)
@@ -1024,8 +1042,17 @@ func TestCheck(t *testing.T) {
 			singles = append(singles, caseSpec{Stream: "section", Idx: len(singles), Muts: []mutation{{Path: f.Path, Kind: f.Kind, Value: v}}})
 		}
 	}
+	structFs := structuralFields(h.baseLoc.Tree)
+	nStruct := 0
+	for _, f := range structFs {
+		for _, v := range f.Values {
+			nStruct++
+			singles = append(singles, caseSpec{Stream: "structural", Idx: len(singles), Muts: []mutation{{Path: f.Path, Kind: f.Kind, Value: v}}})
+		}
+	}
+	r.Bucket("cases_structural_server_groups", int64(nStruct))
 	nSpell := 0
-	for _, f := range spellFs {
+	for _, f := range enumSpellingFields(fields) {
 		for _, v := range f.Values {
 			nSpell++
 			singles = append(singles, caseSpec{Stream: "enum-spelling", Idx: len(singles), Muts: []mutation{{Path: f.Path, Kind: f.Kind, Value: v}}})
@@ -1130,6 +1157,8 @@ func TestCheck(t *testing.T) {
 	r.Require("queries_answered", 10000)
 	r.Require("effective_size_probes_applied", 100)
 	r.Require("connlimit_scripts_run", 6)
+	r.Require("cases_structural_server_groups", 8)
+	r.Require("structural_cases_decided", 8)
 	r.Require("cases_enum_spelling", 40)
 	r.Require("cases_enum_spelling_with_dependent", 40)
 	r.Require("enum_spelling_cases_decided", 80)
